@@ -8,7 +8,7 @@ LEVEL = 'exploration'
 B = [0, 1, 2, 0x7F, 0x80, 0xFF, 0x100, 0xFFFF, 0x10000, 2**31 - 1, 2**31, 2**32 - 2, 2**32 - 1]
 RULE = ('list: every sequence of 0..3 entries from a pool of boundary entries (names a, 255 x b, \\xff\\x00/, UTF-8; mode/size/mtime in {0,1,2^31,2^32-1}) x ALL sets '
         'of <=k cut positions of the DENT/DONE reply stream (short-name listings) or <=1 (all listings) + all-1-byte + 300-entry listings x WRTE sizes; stat: all '
-        '13^3 boundary triples x every cut position of the 16-byte reply, <=2 cuts on a subset; both twins; the same with the reply WRTEs overtaking the OKAY of the request (legal per protocol.txt); the same requests after a reply that was cut off in mid-record; oracle: return value == model filesystem, '
+        '13^3 boundary triples x every cut position of the 16-byte reply, <=2 cuts on a subset; both twins; the same with the reply WRTEs overtaking the OKAY of the request (legal per protocol.txt); the same requests after a reply that was cut off in mid-record, after an abandoned OPEN that is answered late, and under global bulk_read fragmentation policies; oracle: return value == model filesystem, '
         'stream closed, all device packets consumed; non-trivial = at least one entry / any stat; distinct = distinct (listing or triple, cut set, twin)')
 ASSUMPTIONS = ['adbsim sync service follows SYNC.TXT', 'field values come from a 13-value boundary alphabet, names from a 5-name pool']
 
@@ -36,6 +36,8 @@ def run_list(params, ch):
         cuts = oracle.choose_cuts(ch, blob_len, params['kmax'])
         cut = {'at': cuts}
     cfg = {'fs': {'dirs': {b'/d': ents}}, 'cut': cut, 'okay_order': params.get('okay')}
+    if params.get('policy'):
+        cfg['frag_policy'] = params['policy']
     s = Session(ch, cfg, twin=params['twin'])
     try:
         s.op(('connect',))
@@ -66,6 +68,8 @@ def run_stat(params, ch):
     m, z, t = params['triple']
     cuts = oracle.choose_cuts(ch, 16, params['kmax'])
     cfg = {'fs': {'stats': {b'/s': (m, z, t)}}, 'cut': {'at': cuts}, 'okay_order': params.get('okay')}
+    if params.get('policy'):
+        cfg['frag_policy'] = params['policy']
     s = Session(ch, cfg, twin=params['twin'])
     try:
         s.op(('connect',))
@@ -77,6 +81,29 @@ def run_stat(params, ch):
             viol.append({'msg': 'device saw sync requests %r' % (s.env.sync_requests,)})
         return {'outcome': r, 'viol': viol, 'nontrivial': (m, z, t, tuple(cuts), params['twin']),
                 'sample': {'triple': (m, z, t), 'cuts': cuts, 'twin': params['twin']}, 'trans': len(s.env.events)}
+    finally:
+        s.finish()
+
+
+def run_late(params, ch):
+    """An earlier command's OPEN is answered only after the caller gave up; list and stat on the same connection must still
+    return exactly the model's data."""
+    ents = listing(POOL, 2, params['idx'])
+    cfg = {'fs': {'dirs': {b'/d': ents}, 'stats': {b'/s': (1, 2, 3)}}, 'shell': {b'shell:slow': [b'LATE-1', b'LATE-2'][:params['nlate']]}, 'open_delay': {b'shell:slow': params['delay']},
+           'cut': {'size': params['wrte']}}
+    s = Session(ch, cfg, twin=params['twin'])
+    try:
+        s.op(('connect',))
+        r1 = s.op(('shell', 'slow', {'decode': False, 'transport_timeout_s': 0.5, 'read_timeout_s': 1.0}))
+        viol = []
+        for name in ('list', 'stat', 'list'):
+            r = s.op(('list', '/d') if name == 'list' else ('stat', '/s'))
+            want = ('ok', [(bytearray(e[0]), e[1], e[2], e[3]) for e in ents]) if name == 'list' else ('ok', (1, 2, 3))
+            if r != want:
+                viol.append({'msg': '%s after an abandoned open that the device answered late returned %r' % (name, r if len(repr(r)) < 200 else repr(r)[:200])})
+                break
+        viol += [{'msg': '%s: %s' % i} for i in s.env.issues if i[0] in ('dup-id', 'frame', 'overread')]
+        return {'outcome': (r1[:2],), 'viol': viol, 'nontrivial': tuple(sorted((k, str(v)) for k, v in params.items())), 'sample': dict(params, first=r1[:2]), 'trans': len(s.env.events)}
     finally:
         s.finish()
 
@@ -131,4 +158,11 @@ def parts(tier):
     sc = [{'twin': t, 'first': f, 'k': k, 'wrte': w, 'idx': i} for t in twins for f in ('list', 'stat') for k in (0, 1, 2, 3, 5) for w in (3, 8, 11, 16, 25) for i in (1, 40, 111)]
     out.append(Part('retry-after-aborted-reply', sc, run_retry, what='list/stat whose reply is cut off in mid-record, then list, stat, list again on the same connection', bound='%d cases' % len(sc),
                     min_outcomes=1))
+    sc = [{'twin': t, 'delay': d, 'nlate': n, 'wrte': w, 'idx': i} for t in twins for d in (0.7, 1.2, 1.7) for n in (0, 1, 2) for w in (7, 4096) for i in (3, 20)]
+    out.append(Part('after-late-open-answer', sc, run_late, {'dev-order': None}, what='list/stat after an OPEN that the device answered only after the caller gave up', bound='%d cases x all wire orders' % len(sc),
+                    min_outcomes=1))
+    sc = [{'pool': 'full', 'n': 3, 'idx': i, 'twin': t, 'size': z, 'policy': pol} for i in (5, 77, 200) for t in twins for z in (7, 64, 4096) for pol in ('one', 'two', 'half', 'n-1', 'alt-empty-one')]
+    out.append(Part('list-under-read-fragmentation', sc, run_list, what='listings under global bulk_read fragmentation policies (1 byte, 2 bytes, halves, n-1, alternating empty reads)', bound='%d cases' % len(sc)))
+    sc = [{'triple': (a, b, c), 'twin': t, 'kmax': 1, 'policy': pol} for (a, b, c) in ((0, 0, 0), (2**32 - 1, 2**31, 1), (0o100644, 0x10000, 0xFF)) for t in twins for pol in ('one', 'two', 'half', 'n-1', 'alt-empty-one')]
+    out.append(Part('stat-under-read-fragmentation', sc, run_stat, {'*': None}, what='stat under global bulk_read fragmentation policies x every single cut', bound='%d cases' % len(sc)))
     return out
